@@ -229,7 +229,7 @@ class ChunkKinds(object):
                 if r.value is None:
                     out.append((None, v, list(cs)))
                     continue
-                for k, o, c in sub.of(r.value, r, (), depth + 1):
+                for k, o, c in sub.of(r.value, r, list(sub.fl.conds(r)), depth + 1):
                     keep = []
                     if on_self:
                         # the callee's tests of ``self.<flag>`` speak about the same object as the caller's
